@@ -67,7 +67,7 @@ TraceInit ==
   /\ lists = ObsLists(InitObs)
   /\ mans = ObsMans(InitObs)
   /\ present = ObsPresent(InitObs)
-  /\ ftime = [f \in ObsPresent(InitObs) |-> 0]
+  /\ ftime = [f \in ObsPresent(InitObs) |-> OldTime]
   /\ markers = {}
   /\ mtimeM = <<>>
   /\ clock = InitObs.clock
@@ -89,6 +89,7 @@ TraceInit ==
   /\ outcomes = [a \in Actors |-> <<>>]
   /\ reads = <<>>
   /\ deleted = {}
+  /\ initBody = InitCurBody
 
 (***************************************************************************)
 (* Event binding.                                                          *)
@@ -113,6 +114,7 @@ TrResolve ==
        [] ev.why = "version"  -> ReadVersion(A, n)
        [] ev.why = "ds"       -> DsResolve(A, n)
        [] ev.why = "read"     -> RBegin(A, n)
+       [] ev.why = "gc"       -> GBegin(A, n)
        [] OTHER               -> NoopResolve(A, n)
 
 TrWriteMarker ==
@@ -120,7 +122,7 @@ TrWriteMarker ==
   /\ ev.ok
   /\ IF ev.tcls = "data" THEN WriteMarkerD(A, ev.f) ELSE WriteMarkerM(A, ev.f)
 
-TrWriteData == IsEv("WriteData") /\ ev.ok /\ WriteData(A, ev.f)
+TrWriteData == IsEv("WriteData") /\ ev.ok /\ WriteData(A, ev.f, ev.mt)
 TrCommitStart == IsEv("CommitStart") /\ CommitStart(A)
 TrFinish == IsEv("Finish") /\ Finish(A)
 
@@ -161,20 +163,22 @@ TrRead ==
 TrWriteMan ==
   /\ IsEv("WriteMan")
   /\ ev.ok
-  /\ IF pc[A] = "c_rew" THEN RewriteManifest(A, ev.f)
-     ELSE WriteManifest(A, ev.f, IF Len(ev.entries) = 0 THEN loc[A].sid ELSE ev.entries[1].snap)
+  /\ IF pc[A] = "c_rew" THEN RewriteManifest(A, ev.f, ev.mt)
+     ELSE WriteManifest(A, ev.f, IF Len(ev.entries) = 0 THEN loc[A].sid ELSE ev.entries[1].snap, ev.mt)
   /\ mans'[ev.f] = EntrySet(ev.entries)            \* what was written is what the model computes
 
 TrWriteList ==
   /\ IsEv("WriteList")
   /\ ev.ok
-  /\ WriteList(A, ev.f, ev.sid)
+  /\ WriteList(A, ev.f, ev.sid, ev.mt)
   /\ lists'[ev.f] = [i \in 1..Len(ev.mans) |-> ev.mans[i]]
 
 TrNow ==
   /\ IsEv("Now")
   /\ CASE ev.why = "ts"  -> StampSnapshot(A, ev.val)
        [] ev.why = "upd" -> StampUpdate(A, ev.val)
+       [] ev.why = "gcm" -> GStampM(A, ev.val)
+       [] ev.why = "gcc" -> GStamp(A, ev.val)
        [] OTHER -> Stutter
 
 TrTLock   == IsEv("TLock") /\ TLock(A)
@@ -198,16 +202,26 @@ TrFlipHint ==
 
 TrBackoff == IsEv("Backoff") /\ Backoff(A)
 
+\* collector: listings must show exactly what the model's storage holds
+TrList ==
+  /\ IsEv("List")
+  /\ ev.ok
+  /\ IF ev.dir = "metadata/inflight" THEN GLoadMarkers(A) /\ ToSet(ev.res) = markers
+     ELSE GList(A) /\ ToSet(ev.res) = loc'[A].cand
+TrStat == (IsEv("Stat") \/ IsEv("StatMarker") \/ IsEv("ReadMarker")) /\ Stutter
+
 TrDeleteMarker ==
   /\ IsEv("DeleteMarker")
   /\ ev.ok
-  /\ IF pc[A] = "c_cleanup" THEN DeleteMarker(A, ev.f) ELSE RollbackDeleteMarker(A, ev.f)
+  /\ IF Role[A] = "collector" THEN GSweepMarker(A, ev.f)
+     ELSE IF pc[A] = "c_cleanup" THEN DeleteMarker(A, ev.f) ELSE RollbackDeleteMarker(A, ev.f)
 
-TrDeleteFile == IsEv("DeleteFile") /\ ev.ok /\ RollbackDeleteData(A, ev.f)
+TrDeleteFile == IsEv("DeleteFile") /\ ev.ok /\ IF Role[A] = "collector" THEN GDelete(A, ev.f) ELSE RollbackDeleteData(A, ev.f)
 
 TrRet ==
   /\ IsEv("Ret")
-  /\ IF Role[A] = "reader"
+  /\ IF Role[A] = "collector" THEN GReturn(A) /\ (ev.res = "aborted" <=> pc[A] = "g_abort")
+     ELSE IF Role[A] = "reader"
      THEN /\ RReturn(A)
           /\ ev.res = "ok" <=> loc[A].err = "none"
           /\ ev.res = "ok" => IF WantsData(A) THEN ToSet(ev.files) = loc[A].got     \* rows returned = files the model read
@@ -234,7 +248,7 @@ TraceNext ==
   \/ TrCommitStart \/ TrFinish \/ TrFault
   \/ TrBegin \/ TrResolve \/ TrWriteMarker \/ TrWriteData \/ TrExists \/ TrRead \/ TrWriteMan \/ TrWriteList
   \/ TrNow \/ TrTLock \/ TrTUnlock \/ TrLockTry \/ TrDUnlock \/ TrWriteMeta \/ TrFence \/ TrFlipHint
-  \/ TrBackoff \/ TrDeleteMarker \/ TrDeleteFile \/ TrRet \/ TrTick \/ TrObserve
+  \/ TrBackoff \/ TrList \/ TrStat \/ TrDeleteMarker \/ TrDeleteFile \/ TrRet \/ TrTick \/ TrObserve
 
 TraceSpec == TraceInit /\ [][TraceNext]_tvars
 
@@ -249,7 +263,8 @@ TraceSpec == TraceInit /\ [][TraceNext]_tvars
 InvTable == << <<"TypeOK", TypeOK>>, <<"Serializable", Serializable>>, <<"LinearChain", LinearChain>>,
                <<"AckedOnce", AckedOnce>>, <<"NoDoubleCommit", NoDoubleCommit>>,
                <<"ReachablePresent", ReachablePresent>>, <<"FlipReplacesValidated", FlipReplacesValidated>>,
-               <<"NoLiveDelete", NoLiveDelete>>, <<"NoDeleteOnAmbiguous", NoDeleteOnAmbiguous>>, <<"ReadIsSnapshot", ReadIsSnapshot>>, <<"ReadsMonotone", ReadsMonotone>> >>
+               <<"NoLiveDelete", NoLiveDelete>>, <<"NoDeleteOnAmbiguous", NoDeleteOnAmbiguous>>,
+               <<"OnlyOrphansDeleted", OnlyOrphansDeleted>>, <<"InflightPresent", InflightPresent>>, <<"ReadIsSnapshot", ReadIsSnapshot>>, <<"ReadsMonotone", ReadsMonotone>> >>
 ViolatedNow == {i \in 1..Len(InvTable) : ~InvTable[i][2]}
 
 ASSUME TLCSet(2, [t \in 1..NT |-> 0]) /\ TLCSet(3, [t \in 1..NT |-> <<0, "">>])
